@@ -5,6 +5,7 @@ package httpserver
 
 import (
 	"encoding/json"
+	"net/http"
 	"strings"
 	"testing"
 
@@ -84,6 +85,62 @@ func c03Adaptor(r *verifh.Rand) *pxAdaptor {
 	return nil
 }
 
+// c03ReqLine adds the RequestAdaptor's request-line / header sections (mostly valid, colliding alphabets).
+func c03ReqLine(r *verifh.Rand, a *pxAdaptor, clientMethod string) {
+	// (a HEAD request whose method is adapted makes net/http write the backend's body to a client that
+	// expects none - SetMethod edits the server's own *http.Request; recorded in notes/C03.md, outside the statement)
+	if clientMethod != "HEAD" && r.Bool(1, 3) {
+		a.Method = r.Pick("GET", "POST", "PUT", "DELETE")
+	}
+	if r.Bool(1, 3) {
+		a.Host = r.Pick("adapted.example", "adapted.example:81", "10.9.9.9")
+	}
+	switch r.Intn(8) {
+	case 0:
+		a.Path = &pxPathAd{Replace: r.Pick("/replaced", "/re placed", "/a%2Fb", "/r?x")}
+	case 1:
+		a.Path = &pxPathAd{AddPrefix: r.Pick("/pre", "/p q", "/pre/")}
+	case 2:
+		a.Path = &pxPathAd{TrimPrefix: r.Pick("/a", "/a/", "/zzz", "/")}
+	case 3:
+		a.Path = &pxPathAd{Regexp: r.Pick("^/a", "b$", "/", "[0-9]+", "^/(.*)$"), ReRepl: r.Pick("/x", "", "/$1/y", "%")}
+	}
+	c03HdrOps(r, a, []string{"X-A", "x-ab", "X-Foo", "Cookie", "X-Added", "Keep-Alive", "Accept"})
+}
+
+// c03HdrOps fills the adaptor's `header:` section with distinct keys per sub-section.
+func c03HdrOps(r *verifh.Rand, a *pxAdaptor, names []string) {
+	if !r.Bool(1, 2) {
+		return
+	}
+	used := map[string]bool{}
+	pick := func() string {
+		for t := 0; t < 8; t++ {
+			n := names[r.Intn(len(names))]
+			if !used[http.CanonicalHeaderKey(n)] {
+				used[http.CanonicalHeaderKey(n)] = true
+				return n
+			}
+		}
+		return ""
+	}
+	for k := r.Range(0, 2); k > 0; k-- {
+		if n := pick(); n != "" {
+			a.HDel = append(a.HDel, n)
+		}
+	}
+	for k := r.Range(0, 2); k > 0; k-- {
+		if n := pick(); n != "" {
+			a.HSet = append(a.HSet, [2]string{n, r.Pick("s1", "s2", "a,b")})
+		}
+	}
+	for k := r.Range(0, 2); k > 0; k-- {
+		if n := pick(); n != "" {
+			a.HAdd = append(a.HAdd, [2]string{n, r.Pick("a1", "a2")})
+		}
+	}
+}
+
 func c03Limit(r *verifh.Rand) int64 { return int64(r.PickInt(0, 0, 0, -1, -1, 1<<20)) }
 
 func c03Gen(r *verifh.Rand, i int) interface{} {
@@ -106,9 +163,22 @@ func c03Gen(r *verifh.Rand, i int) interface{} {
 		if sc.Cfg.ReqAd != nil && sc.Cfg.ReqAd.Decompress && sc.Cfg.ReqAd.Body != "" {
 			sc.Cfg.ReqAd.Decompress = false // Init panics on body+decompress (C13's business)
 		}
+		if sc.Cfg.ReqAd != nil && r.Bool(2, 3) {
+			c03ReqLine(r, sc.Cfg.ReqAd, sc.Method)
+		}
 	}
 	if r.Bool(1, 3) {
 		sc.Cfg.RespAd = c03Adaptor(r)
+		if sc.Cfg.RespAd != nil && r.Bool(1, 2) {
+			c03HdrOps(r, sc.Cfg.RespAd, []string{"X-B", "x-b", "Etag", "X-Added", "Cache-Control", "Content-Language"})
+		}
+	}
+	// mirror pool: the filter matches requests carrying X-Mirror: 1
+	if r.Bool(1, 5) {
+		sc.Cfg.Mirror = &pxMirror{Hdr: "X-Mirror", Val: "1", Server: r.Pick("ip", "name"), KeepHost: r.Bool(1, 3)}
+		if r.Bool(3, 4) {
+			sc.Hdrs = append(sc.Hdrs, [2]string{r.Pick("X-Mirror", "x-mirror"), r.Pick("1", "1", "1", "2")})
+		}
 	}
 	sc.Backend.Status = r.PickInt(200, 200, 200, 200, 201, 404, 500, 503, 302, 204, 304)
 	bh := []string{"X-B", "x-b", "Cache-Control", "Set-Cookie", "Etag", "X-Request-Id", "Content-Language"}
@@ -124,6 +194,35 @@ func c03Gen(r *verifh.Rand, i int) interface{} {
 	}
 	sc.Backend.Body = pxBody{Len: c03Size(r, thorough), Seed: r.Intn(1000), Kind: r.Pick("text", "text", "rand"),
 		Enc: r.Pick("cl", "cl", "cl", "chunked", "chunked", "close"), Gzip: r.Bool(1, 5)}
+	// pool retry policy + failureCodes: the first attempts fail (a listed status, or the connection is closed
+	// after the request was read), the body must reach the backend intact on every attempt
+	if r.Bool(1, 6) {
+		sc.Cfg.Retry = &pxRetry{Max: r.PickInt(1, 2, 3, 3), FailureCodes: []int{503, 502}}
+		nf := r.PickInt(0, 1, 1, 2, 3)
+		for k := 0; k < nf; k++ {
+			pre := pxPre{Kind: "status", Status: r.PickInt(503, 503, 502)}
+			if k == 0 && r.Bool(1, 3) {
+				pre = pxPre{Kind: "reset"} // only on the first (fresh) connection: the transport itself never retries there
+			}
+			sc.Backend.Pre = append(sc.Backend.Pre, pre)
+		}
+		if (sc.Body.Enc == "none" || r.Bool(1, 2)) && sc.Method != "HEAD" {
+			sc.Method = r.Pick("POST", "PUT")
+			sc.Body = pxBody{Len: r.PickInt(1, 100, 2619, 10000), Seed: r.Intn(1000), Kind: "text", Enc: r.Pick("cl", "chunked")}
+		}
+		sc.Cfg.Mirror = nil
+	}
+	// a backend that declares more than it sends, behind a buffered Proxy (with or without `compression:`):
+	// never a success (in stream mode the status line is already out; that combination is C07's)
+	if sc.Cfg.Retry == nil && r.Bool(1, 12) && sc.Backend.Status != 204 && sc.Backend.Status != 304 && sc.Method != "HEAD" {
+		sc.Backend.Body = pxBody{Len: r.PickInt(10, 100, 3000), Seed: r.Intn(1000), Kind: r.Pick("text", "rand"), Enc: "lie"}
+		sc.Backend.Body.Decl = sc.Backend.Body.Len + r.PickInt(1, 10, 5000)
+		sc.Cfg.PoolMax, sc.Cfg.ProxyMax = int64(r.PickInt(0, 1<<20)), int64(r.PickInt(0, 1<<20))
+		if r.Bool(2, 3) {
+			sc.Cfg.Compression = r.PickInt(0, 100)
+			sc.Hdrs = append(sc.Hdrs, [2]string{"Accept-Encoding", "gzip"})
+		}
+	}
 	return sc
 }
 
